@@ -44,6 +44,7 @@ type Cred struct {
 	Fails    int  // refused presentations so far
 	UserCode string
 	Decision string // device: "", "accept", "reject"
+	Pruned   int    // access tokens: 2 = the store's housekeeping removed the expired row, 1 = may have
 }
 
 type Grant struct {
@@ -150,6 +151,11 @@ func NewEng(t *rapid.T, cfg EngCfg) *Eng {
 			cfg.MutateDraw(t, c)
 		}
 	}})
+	if e.w.Tx != nil && rapid.Bool().Draw(t, "revokeAnswersNotFoundWhenNothingMatched") {
+		// like SQL-backed stores: revoking by a request id that has no row left answers ErrNotFound
+		e.w.Tx.NotFoundOnEmptyRevoke = true
+		e.label("store-answers-not-found-on-empty-revoke")
+	}
 	for _, id := range []string{"A", "B"} {
 		c := stdClient(id, false)
 		c.Secret = e.w.HashSecret("secret-" + id)
